@@ -29,6 +29,8 @@ REQUIRED = ["no-force attempts refused", "force imports compared with solitary i
             "read sequences on a handle holding an uncommitted failed write", "databases whose stored dialect is null",
             "read sequences on a handle that committed a delete, an update and a hand-made relation before",
             "generators left suspended after their first item", "attempts with the new data given as a URL",
+            "files re-dumped right after being opened", "databases with an update history (several meta rows) opened",
+            "read sequences on a GTF database of more than 5000 rows",
             "attempts after set_pragmas() on a handle to another database", "journal mode and side files compared after a refused import"]
 ASSUMPTIONS = [
     "'content untouched' is judged on the independent content dump (byte identity of the file is recorded as a monitor, not demanded)",
@@ -319,6 +321,15 @@ def reads(ctx, case):
     import gffutils
 
     text = annotation(case["seed"], case["fmt"])
+    if case.get("big_gtf"):
+        # a GTF database above any size threshold (>= 5000 rows once genes and transcripts are inferred)
+        rows = []
+        for g in range(720):
+            for e in range(7):
+                s0 = 1000 * g + 100 * e + 1
+                rows.append('chr%d\tsrc\texon\t%d\t%d\t.\t%s\t.\tgene_id "bg%d"; transcript_id "bt%d";' % (g % 3 + 1, s0, s0 + 50, "+-"[g % 2], g, g))
+        text = "\n".join(rows) + "\n"
+        ctx.mon("read sequences on a GTF database of more than 5000 rows")
     dbfn = ctx.tmp(".db")
     try:
         kw = {}
@@ -343,11 +354,21 @@ def reads(ctx, case):
                 pass
             w.conn.close()
         sqltrace.reset()
+        pre_open = dbdump.dump(dbfn)
         db = gffutils.FeatureDB(dbfn, keep_order=case["seed"] % 2 == 0)
         serial = getattr(db.conn, "gv_serial", None)
         if serial is None:
             from gvmon.run import Inconclusive
             raise Inconclusive("gffutils' connection is not a traced connection")
+        # opening a database is a read as well (also one that has seen updates: several meta rows)
+        ctx.mon("files re-dumped right after being opened")
+        if len(pre_open["meta"]) > 1:
+            ctx.mon("databases with an update history (several meta rows) opened")
+        d_open = dbdump.diff(pre_open, dbdump.dump(dbfn))
+        if d_open or db.conn.in_transaction:
+            ctx.violation(case, {"why": "opening a database with FeatureDB() changed its content", "diff": d_open,
+                                 "meta_rows_before": len(pre_open["meta"])})
+            return
         if case.get("prior_writes"):
             # the reading handle has a past: it deleted a feature in the middle of a hierarchy, added features and a
             # hand-made second-level relation (all committed).  What it reads afterwards still writes nothing.
@@ -467,6 +488,11 @@ def run(ctx):
                 "new_fmt": rng.choice(["gff3", "gtf"]), "disjoint": True, "force": False, "force_kw": "absent", "locked": True}
         execute(ctx, case)
         ctx.case(("pair-locked", case["old_seed"], case["new_seed"]), True, sample=case, cls="pair on a locked database")
+    if ctx.shard == 0 or ctx.tier == "thorough":
+        calls = ["region", "all_features", "features_of_type", "children", "parents", "region", "count", "region", "getitem", "region"] * 2
+        case = {"kind": "reads", "seed": rng.randrange(10 ** 6), "fmt": "gtf", "calls": calls, "no_infer": False, "big_gtf": True}
+        execute(ctx, case)
+        ctx.case(("reads-big-gtf", case["seed"]), True, cls="read sequence on a large gtf db")
     for _ in range(ctx.budget(480, 16000)):
         calls = [rng.choice(METHODS) for _ in range(40)]
         case = {"kind": "reads", "seed": rng.randrange(10 ** 6), "fmt": rng.choice(["gff3", "gff3", "gtf"]), "calls": calls,
